@@ -214,7 +214,7 @@ def l3(chk, repo, models):
                 for e in run.events:
                     if e.kind == "store" and isinstance(e.obj, tuple) and e.obj and e.obj[0] == "cfg":
                         bad.setdefault((e.lineno, e.obj), (e, run))
-                    if e.kind == "cfg_mutation":
+                    if e.kind == "cfg_mutation" and e.method != "__setitem__":
                         bad.setdefault((e.lineno, ("cfg", e.src, e.method)), (e, run))
             key = "%s.%s" % (c.name, mname)
             if bad:
@@ -255,18 +255,30 @@ def l3(chk, repo, models):
         except AnalysisError:
             chk.error("helper %s not found in %s" % (fn, rel))
             continue
-        bind = {}
-        for p in params:
-            if p in ("input_dict", "surface"):
-                bind[p] = Val("cfgdict", cfg=True, cx=p, extra=p)
-            elif p == "sections":
-                bind[p] = Val("cfglist", cfg=True, cx="sections", extra="sections")
-            else:
-                bind[p] = Val("arr", cfg=True, obj=("cfg", "arg", p), view="whole", cx=p)
-        try:
-            runs = enumerate_runs(repo, None, f, lambda s: Interp(repo, None, s), bind=bind, join_fallback=lambda s: Interp(repo, None, s, join_atoms=True))
-        except AnalysisError as ex:
-            chk.undecided("L3", "%s()" % fn, f.where, str(ex))
+        from ..absval import NONE
+
+        runs = []
+        failed = None
+        # array arguments are supplied one at a time (the others None), as the
+        # documented call forms do
+        arr_params = [p for p in params if p not in ("input_dict", "surface", "sections")]
+        for active in (arr_params or [None]):
+            bind = {}
+            for p in params:
+                if p in ("input_dict", "surface"):
+                    bind[p] = Val("cfgdict", cfg=True, cx=p, extra=p)
+                elif p == "sections":
+                    bind[p] = Val("cfglist", cfg=True, cx="sections", extra="sections")
+                elif p == active:
+                    bind[p] = Val("arr", cfg=True, obj=("cfg", "arg", p), view="whole", cx=p)
+                else:
+                    bind[p] = NONE
+            try:
+                runs += enumerate_runs(repo, None, f, lambda s: Interp(repo, None, s), bind=bind, join_fallback=lambda s: Interp(repo, None, s, join_atoms=True))
+            except AnalysisError as ex:
+                failed = ex
+        if failed is not None:
+            chk.undecided("L3", "%s()" % fn, f.where, str(failed))
             continue
         chk.analysed_method(fn)
         bad = {}
